@@ -303,3 +303,40 @@ Lemma factor_facts n1 d1 n2 d2 : 0 < n1 * d2 -> 0 < d1 * n2 ->
   0 < g /\ n1 * d2 = cn * g /\ d1 * n2 = cd * g /\ 0 < cn /\ 0 < cd.
 Proof. intros Ha Hb. apply reduce_facts; assumption. Qed.
 
+
+(** * detail::period_quotient (duration.hpp): representability and integrality of the factor *)
+Lemma le_div_iff q a b : 0 < b -> q <= a / b <-> q * b <= a.
+Proof.
+  intros Hb. split; intros H.
+  - pose proof (Z.mul_div_le a b Hb). nia.
+  - apply Z.div_le_lower_bound; lia.
+Qed.
+
+Lemma mul_eq_1_pos a b : 0 < a -> 0 < b -> (a * b = 1 <-> a = 1 /\ b = 1).
+Proof. intros Ha Hb. split; nia. Qed.
+
+Lemma period_quotient_integral_m_spec w1 n1 d1 w2 n2 d2 :
+  period_ok n1 d1 = true -> period_ok n2 d2 = true ->
+  period_quotient_integral_m (Build_dty w1 n1 d1) (Build_dty w2 n2 d2)
+  = Val ((factor_num n1 d1 n2 d2 <=? max64) && (factor_den n1 d1 n2 d2 =? 1)).
+Proof.
+  unfold period_ok, lim64, factor_num, factor_den. intros H1 H2.
+  assert (Hn1 : 0 < n1 <= max64) by (unfold max64; lia). assert (Hd1 : 0 < d1 <= max64) by (unfold max64; lia).
+  assert (Hn2 : 0 < n2 <= max64) by (unfold max64; lia). assert (Hd2 : 0 < d2 <= max64) by (unfold max64; lia).
+  destruct (cross_cancel n1 d1 n2 d2) as (Hg1 & Hg2 & P1 & P4 & P3 & P2 & EA & EB & Hab & EG); try lia.
+  rewrite EG.
+  assert (Hk : 0 < Z.gcd n1 n2 * Z.gcd d2 d1) by nia.
+  rewrite EA at 1. rewrite EB at 1. rewrite !Z.div_mul by lia.
+  unfold period_quotient_integral_m. cbn [pn pd].
+  rewrite !gcd_m_spec by lia. cbn [bind].
+  rewrite (Z.gcd_comm d1 d2).
+  set (g1 := Z.gcd n1 n2) in *. set (g2 := Z.gcd d2 d1) in *.
+  destruct ((g1 =? 0) || (g2 =? 0)) eqn:Eg; [lia|].
+  rewrite !Z.quot_div_nonneg by (unfold max64; lia).
+  set (q1 := n1 / g1) in *. set (q2 := d2 / g2) in *. set (e1 := d1 / g2) in *. set (e2 := n2 / g1) in *.
+  destruct ((q2 =? 0) || (e2 =? 0)) eqn:Ez; [lia|].
+  f_equal. apply Bool.eq_iff_eq_true.
+  rewrite !Bool.andb_true_iff, !Z.leb_le, !Z.eqb_eq.
+  rewrite (le_div_iff q1 max64 q2) by lia. rewrite (le_div_iff e1 max64 e2) by lia.
+  rewrite (mul_eq_1_pos e1 e2) by lia. unfold max64. intuition lia.
+Qed.
